@@ -20,7 +20,9 @@ META = {
                    "advanced / yielded for every combination of heads and their order) equals the table of its set operation.",
     "not_decided": ["covers ⇔ range inclusion (128-bit mask arithmetic)", "totality/transitivity of Ord",
                     "correctness of the merge iterators beyond their single-step tables (that the inputs are ascending)", "text round trip as value identity"],
-    "trusted_base": ["std sort/dedup/binary_search", "derive(PartialEq, Hash) compare/hash all fields"],
+    "trusted_base": ["std sort/dedup/binary_search", "derive(PartialEq, Hash) compare/hash all fields",
+                     "a BTreeSet iterates in ascending order without duplicates",
+                     "Option::is_some_and / is_none_or / map_or / filter, Ordering::is_lt … / reverse / then, Result::map / and_then: std's documented contracts"],
 }
 
 A = "resources::addr::"
